@@ -336,7 +336,8 @@ static bool shapeEndsCase(const vh::Args &a, long k, int argc, char **argv) {
     bool transpose = r.coin();
     bool extra = r.coin(1, 3);
     unsigned opts = 1u | (unsigned) (2 * r.range(0, 15));
-    double H = (double) r.range(16, 60);
+    bool jog = r.coin();
+    double H = (double) r.range(16, 60) + (jog ? 24 : 0);
     double ya = 200 - (double) r.range(0, 20), yb = 200 - (double) r.range(0, 20);      // tops of the two shapes
     double top = std::max(ya, yb), y0 = top + 2, step = (double) r.range(1, 3);
     double gapx = 10.0 * r.range(4, 12);
@@ -346,7 +347,7 @@ static bool shapeEndsCase(const vh::Args &a, long k, int argc, char **argv) {
         return Rectangle(Point(std::min(p.x, q.x), std::min(p.y, q.y)), Point(std::max(p.x, q.x), std::max(p.y, q.y)));
     };
     vh::beginCase(k, "shape-ends");
-    printf("cfg %s %s %d %d %s %u %s %d shapeends\n", hx(d).c_str(), hx(H).c_str(), m + (extra ? 1 : 0), 0, hx(0.0).c_str(), opts, hx(0.0).c_str(), (int) transpose);
+    printf("cfg %s %s %d %d %s %u %s %d shapeends\n", hx(d).c_str(), hx(H).c_str(), m + (extra ? 1 : 0) + (jog ? 1 : 0), 0, hx(0.0).c_str(), opts, hx(0.0).c_str(), (int) transpose);
     Router *router = nullptr;
     try {
         router = new Router(OrthogonalRouting);
@@ -372,8 +373,93 @@ static bool shapeEndsCase(const vh::Args &a, long k, int argc, char **argv) {
             c->setRoutingType(ConnType_Orthogonal);
             conns.push_back(c); ++n;
         }
+        if (jog) {
+            // a connector whose two end segments are parallel, touch end to end and lie < 10 apart (a Z with a short jog):
+            // with nudgeOrthogonalTouchingColinearSegments they "overlap", shouldAlignWith holds and linesort merges them
+            double y = y0 + step * m + 12, dy = (double) r.range(2, 8);
+            Point s = P(130, y), t = P(190 + gapx, y + dy);
+            printf("conn %d %s %s %s %s\n", n, hx(s.x).c_str(), hx(s.y).c_str(), hx(t.x).c_str(), hx(t.y).c_str());
+            ConnRef *c = new ConnRef(router, ConnEnd(s), ConnEnd(t), (unsigned) (100 + n));
+            c->setRoutingType(ConnType_Orthogonal);
+            conns.push_back(c); ++n;
+        }
         if (extra) {
             Point s = P(130, y0 + step * m), t = P(160 + gapx / 2, top - 40 - (double) r.range(0, 30));
+            printf("conn %d %s %s %s %s\n", n, hx(s.x).c_str(), hx(s.y).c_str(), hx(t.x).c_str(), hx(t.y).c_str());
+            ConnRef *c = new ConnRef(router, ConnEnd(s), ConnEnd(t), (unsigned) (100 + n));
+            c->setRoutingType(ConnType_Orthogonal);
+            conns.push_back(c); ++n;
+        }
+        fflush(stdout);
+        c10r::arm();
+        router->processTransaction();
+        c10r::dump();
+        for (int i = 0; i < n; ++i) {
+            pts("route", i, conns[i]->route(), transpose);
+            pts("disp", i, conns[i]->displayRoute(), transpose);
+        }
+        printf("overlap %d\n", (int) router->existsOrthogonalSegmentOverlap());
+        vh::endCase();
+        delete router;
+    } catch (vpsc::CriticalFailure &f) {
+        c10r::dump();
+        printf("assert %s\n", oneLine(f.what()).c_str());
+        vh::endCase();
+        if (a.only >= 0) _exit(0);
+        reexecFrom(k + 1, argc, argv);
+    }
+    return true;
+}
+
+// Sixth family ("fan"): a corridor between two blocks as in the first family, but m = 2..4 connectors leave ONE common source
+// point (their shared path up to and through the corridor has a common end point) to pairwise distinct targets, plus optionally an
+// unrelated connector through the same corridor. With nudgeSharedPathsWithCommonEndPoint off the code ties the shared segments
+// together with equality constraints (m_shared_path_connectors_with_common_endpoints), with it on it separates them. The property
+// makes no promise for connectors with a common end point; the family is there for the region tie (common-end rule, equalities).
+static bool fanCase(const vh::Args &a, long k, int argc, char **argv) {
+    vh::Rng r = vh::caseRng(a.seed, k, 5);
+    static const double ds[] = {1, 4, 10};
+    double d = ds[r.range(0, 2)];
+    int m = (int) r.range(2, 4);
+    bool other = r.coin();
+    bool transpose = r.coin();
+    unsigned opts = (unsigned) (2 * r.range(0, 15));           // final-nudge off, bit 3 = nudgeSharedPathsWithCommonEndPoint
+    double W = (m + 2) * d + (double) r.range(0, 20);
+    double L = 300, R = 300 + 10.0 * r.range(10, 30), T1 = 400, Hh = 300;
+    bool above = r.coin();
+    auto P = [&](double x, double y) { return transpose ? Point(y, x) : Point(x, y); };
+    vh::beginCase(k, "fan");
+    printf("cfg %s %s %d %d %s %u %s %d fan\n", hx(d).c_str(), hx(W).c_str(), m + (other ? 1 : 0), 0, hx(0.0).c_str(), opts, hx(0.0).c_str(), (int) transpose);
+    Router *router = nullptr;
+    try {
+        router = new Router(OrthogonalRouting);
+        router->setTransactionUse(true);
+        router->setRoutingParameter(idealNudgingDistance, d);
+        router->setRoutingOption(nudgeOrthogonalSegmentsConnectedToShapes, false);
+        router->setRoutingOption(nudgeOrthogonalTouchingColinearSegments, (opts & 2) != 0);
+        router->setRoutingOption(performUnifyingNudgingPreprocessingStep, (opts & 4) != 0);
+        router->setRoutingOption(nudgeSharedPathsWithCommonEndPoint, (opts & 8) != 0);
+        router->setRoutingOption(penaliseOrthogonalSharedPathsAtConnEnds, (opts & 16) != 0);
+        Point b1a = P(L, T1 - Hh), b1b = P(R, T1), b2a = P(L, T1 + W), b2b = P(R, T1 + W + Hh);
+        Rectangle r1(b1a, b1b), r2(b2a, b2b);
+        printf("obstacle %s %s %s %s\n", hx(std::min(b1a.x, b1b.x)).c_str(), hx(std::min(b1a.y, b1b.y)).c_str(), hx(std::max(b1a.x, b1b.x)).c_str(), hx(std::max(b1a.y, b1b.y)).c_str());
+        printf("obstacle %s %s %s %s\n", hx(std::min(b2a.x, b2b.x)).c_str(), hx(std::min(b2a.y, b2b.y)).c_str(), hx(std::max(b2a.x, b2b.x)).c_str(), hx(std::max(b2a.y, b2b.y)).c_str());
+        new ShapeRef(router, r1, 1);
+        new ShapeRef(router, r2, 2);
+        std::vector<ConnRef *> conns;
+        double ys = above ? T1 - 20 - (double) r.range(0, 40) : T1 + W + 20 + (double) r.range(0, 40);
+        Point src = P(L - 60, ys);
+        int n = 0;
+        for (int i = 0; i < m; ++i) {
+            double yt = (i % 2 == 0) ? T1 - 15 - 13.0 * i - (double) r.range(0, 5) : T1 + W + 15 + 13.0 * i + (double) r.range(0, 5);
+            Point t = P(R + 60 + 14.0 * i, yt);
+            printf("conn %d %s %s %s %s\n", n, hx(src.x).c_str(), hx(src.y).c_str(), hx(t.x).c_str(), hx(t.y).c_str());
+            ConnRef *c = new ConnRef(router, ConnEnd(src), ConnEnd(t), (unsigned) (100 + n));
+            c->setRoutingType(ConnType_Orthogonal);
+            conns.push_back(c); ++n;
+        }
+        if (other) {
+            Point s = P(L - 90, above ? T1 + W + 33 : T1 - 33), t = P(R + 130, above ? T1 - 71 : T1 + W + 71);
             printf("conn %d %s %s %s %s\n", n, hx(s.x).c_str(), hx(s.y).c_str(), hx(t.x).c_str(), hx(t.y).c_str());
             ConnRef *c = new ConnRef(router, ConnEnd(s), ConnEnd(t), (unsigned) (100 + n));
             c->setRoutingType(ConnType_Orthogonal);
@@ -411,8 +497,13 @@ int main(int argc, char **argv) {
     long ntie = (thorough ? 8000 : 1500) * a.scale;        // third family, after the second
     long nzc = (thorough ? 4000 : 800) * a.scale;          // fourth family, after the third
     long nse = (thorough ? 3000 : 500) * a.scale;          // fifth family, after the fourth
-    for (long k = from; k < ncases + nmid + ntie + nzc + nse; ++k) {
+    long nfan = (thorough ? 2500 : 400) * a.scale;         // sixth family, after the fifth
+    for (long k = from; k < ncases + nmid + ntie + nzc + nse + nfan; ++k) {
         if (!a.want(k)) continue;
+        if (k >= ncases + nmid + ntie + nzc + nse) {
+            if (!fanCase(a, k, argc, argv)) return 0;
+            continue;
+        }
         if (k >= ncases + nmid + ntie + nzc) {
             if (!shapeEndsCase(a, k, argc, argv)) return 0;
             continue;
